@@ -909,7 +909,7 @@ def cases(tier, seed):
         add("bitflip.formula", dict(prob=g, seed=seed), "bitflip/grid")
     add("phase_damping.formula", dict(gamma=0.0, default=True, seed=seed), "phase_damping/default")
     add("bitflip.formula", dict(prob=0.0, default=True, seed=seed), "bitflip/default")
-    for q in (1, 2) + ((3,) if thorough else ()):
+    for q in (1, 2, 3):  # q = 3 is the first size at which a wrong tensor-factor order of the Pauli strings is visible
         for s in range(3 if q < 3 else 1):
             add("pauli_channel.formula", dict(q=q, seed=seed + s, argform="array"), "pauli_channel/prob-vector")
             add("pauli_channel.formula", dict(q=q, seed=seed + s, argform="list"), "pauli_channel/prob-list")
@@ -961,3 +961,27 @@ def cases(tier, seed):
         add("builtin.predicates", dict(name="pauli_channel", q=q, seed=seed, expect=dict(is_unital=T)), "pauli_channel/predicates/choi-return-type/is_unital", function="pauli_channel")
         add("builtin.predicates", dict(name="pauli_channel", q=q, seed=seed, expect=dict(is_unitary=F)), "pauli_channel/predicates/choi-return-type/is_unitary", function="pauli_channel")
     return out
+
+
+# =============================================================================================
+# deductive part (prover side), its replay clause, and the tolerance-semantics cases (main agent)
+# =============================================================================================
+from props.C06_prove import EXTRA_CLAUSES as _EXTRA  # noqa: E402
+from props.C06_prove import extra_cases as _extra_cases  # noqa: E402
+from props.C06_prove import prove  # noqa: E402,F401
+
+CLAUSES.update(_EXTRA)
+_cases_bounded = cases
+
+
+def cases(tier, seed):  # noqa: F811
+    return _cases_bounded(tier, seed) + _extra_cases(tier, seed)
+
+
+LEVEL = "other"
+ENGINES = ["E1-pyvc", "E3-E4-rtc"]
+LEVEL_TEXT = ("Mixed. Proved (E1-term, Choi-matrix branch, over callee contracts): is_positive, is_herm_preserving, is_completely_positive, is_trace_preserving and "
+              "is_quantum_channel reduce to the stated matrix predicates with rtol / atol / sys / dim reaching the same-named parameters of their callees. Every verdict against "
+              "constructed ground truth, every built-in channel formula and the tolerance semantics are bounded run-time contract checks.")
+EXPLANATION = LEVEL_TEXT
+TECHNIQUE = "formula contracts over callee contracts (E1-term, z3) for the predicate plumbing + bounded run-time-checked contracts with ground truth by construction"
